@@ -1,6 +1,6 @@
 (* C14 property theorems: statements only; proofs live in Proofs/C14*.v *)
 From Coq Require Import List Permutation String.
-From TS Require Import Model.Str Model.Outcome Model.Unicode Model.Syntax Model.Types Model.Parse Model.Reconcile Model.Collect Model.Lang.Common Model.MultiFile.
+From TS Require Import Model.Str Model.Outcome Model.Unicode Model.Syntax Model.Rename Model.Types Model.Parse Model.Reconcile Model.Collect Model.Lang.Common Model.MultiFile.
 From TS Require Model.Writer.
 From TS Require Import Spec.C14Spec.
 From TS Require Proofs.C14 Proofs.C14Front Proofs.C14Main Proofs.C14Imports Proofs.C14Witness.
@@ -201,6 +201,13 @@ Theorem C14_imports_good :
 Proof. intros uc Huc T ign ho_file ho_crate hc ws arrivals H H1 H2 H3 c pd. eapply Proofs.C14Imports.imports_good; eassumption. Qed.
 Print Assumptions C14_imports_good.
 
+(* the domain of C14_imports_complete contains no input of a recorded finding class: a reference that is in
+   dom_C14 and not imported is a NEW violation, never one of the known ones *)
+Theorem C14_dom_excludes_known :
+  forall ws mapped s c d n, dom_C14 ws mapped s c d n = true -> known_C14 ws s c d n = None.
+Proof. exact Proofs.C14Imports.dom_excludes_known. Qed.
+Print Assumptions C14_dom_excludes_known.
+
 (* the hypotheses are satisfiable: a/src/lib.rs defines A1, my-crate/src/lib.rs says `use a::A1;` and uses it -
    the reference is in dom_C14, in no finding class, and imported *)
 Theorem C14_imports_complete_nonvacuous :
@@ -266,3 +273,15 @@ Theorem C14_same_name_order_refuted :
     Some ([(lit "c", lit "S")], [(lit "S", lit "a", false, Some "C14-same-name", false)]).
 Proof. exact Proofs.C14Witness.same_name_eval. Qed.
 Print Assumptions C14_same_name_order_refuted.
+
+(* C14-glob-const: k defines K1 and `const MyConst`; `use k::*; use k::K1;` - the effective glob imports MyConst from
+   ./k (const_imports singles it out), while TypeScript writes that const as MY_CONST (typescript.rs write_const) *)
+Theorem C14_glob_const_refuted :
+  exists verdicts,
+    Proofs.C14Witness.w_run (fun l => l) (fun l => l) Proofs.C14Witness.ws_glob_const (lit "my_crate") =
+      Some ([(lit "k", lit "K1"); (lit "k", lit "MyConst")], verdicts) /\
+    const_imports (Proofs.C14Main.c14_infos uc_exec [] Proofs.C14Witness.ws_glob_const) [(lit "k", lit "K1"); (lit "k", lit "MyConst")]
+      = [(lit "k", lit "MyConst")] /\
+    str_to_uppercase uc_exec (to_snake_case uc_exec (lit "MyConst")) = lit "MY_CONST".
+Proof. exact Proofs.C14Witness.glob_const_refuted. Qed.
+Print Assumptions C14_glob_const_refuted.
